@@ -447,6 +447,13 @@ fn dump<'tcx>(tcx: TyCtxt<'tcx>, out_dir: &str, krate: &str) {
                         fs = false;
                         let line = sm.lookup_char_pos(st.source_info.span.lo()).line;
                         let _ = write!(out, "[{},{},{}]", cx.place(&b.0), cx.rv(&b.1), line);
+                    } else if let StatementKind::SetDiscriminant { place, variant_index } = &st.kind {
+                        if !fs {
+                            out.push(',');
+                        }
+                        fs = false;
+                        let line = sm.lookup_char_pos(st.source_info.span.lo()).line;
+                        let _ = write!(out, "[{},[\"setdisc\",{}],{}]", cx.place(place), variant_index.as_usize(), line);
                     }
                 }
                 out.push_str("],\"cleanup\":");
